@@ -121,13 +121,18 @@ def _build_corpus() -> Dict[str, tuple]:
     raw += b"".join(f_data(1, x, False) for x in tail)
     corpus["wsh2ext"] = ({"carrier": "ws/h2", "tls": True, "alpn": "h2", "ws_streams": (1,), "deflate": True},
                          _h2_frames(raw), 1)
+    # 9. plain HTTP/2 requests (POST with a body, GET with a query) written with literal HPACK, so that every byte of the
+    #    pseudo-header fields (:method, :path, :scheme, :authority) is mutated as such
+    raw = h2_preamble() + f_headers(1, _req(b"POST", b"/one") + [(b"content-length", b"5")], False)
+    raw += f_data(1, b"hello", True) + f_headers(3, _req(b"GET", b"/two?q=1") + [(b"accept", b"*/*")], True)
+    corpus["h2lit"] = ({"carrier": "h2", "tls": True, "alpn": "h2"}, _h2_frames(raw), 2)
     return corpus
 
 
 CORPUS = _build_corpus()
 SESSIONS = list(CORPUS)
-# the two sessions that differ from wsh1 / wsh2 in header lines only are mutated but not spliced
-SPLICE_SESSIONS = [s for s in SESSIONS if not s.endswith("ext")]
+# the sessions that differ from wsh1 / wsh2 / h2two in header lines / header coding only are mutated but not spliced
+SPLICE_SESSIONS = [s for s in SESSIONS if not s.endswith("ext") and s != "h2lit"]
 
 
 def session_bytes(name: str) -> bytes:
